@@ -77,7 +77,7 @@ def build_domain(gd, d, rng):
     return (g, topo), (zcol, PP[pop]([Variable(n) for n in sorted(gd["nodes"])]))
 
 
-def run_case(ctx, gd, doms, out, cond, rng, wrapper=0):
+def run_case(ctx, gd, doms, out, cond, rng, wrapper=0, cards=None):
     from y0.algorithm.counterfactual_transport.api import (transport_conditional_counterfactual_query,
                                                            transport_unconditional_counterfactual_query)
     from y0.dsl import Zero
@@ -86,7 +86,8 @@ def run_case(ctx, gd, doms, out, cond, rng, wrapper=0):
     built = [build_domain(gd, d, rng) for d in doms]
     dgs, dd = [b[0] for b in built], [b[1] for b in built]
     via = "wrapper" if wrapper else "direct"
-    kernel.LOG.reset_case({"graph": gd, "domains": doms, "outcomes": out, "conditions": cond, "via": via})
+    kernel.LOG.reset_case({"graph": gd, "domains": doms, "outcomes": out, "conditions": cond, "via": via,
+                           **({"cards": cards} if cards else {})})
     res = "!"
     try:
         if wrapper:
@@ -224,6 +225,23 @@ def run_shard(ctx):
                 continue
         classes[cls] = classes.get(cls, 0) + 1
         run_case(ctx, gd, doms, out, cond, rng, wrapper=(0, 0, 0, 1, 2)[i % 5])
+    # wide graphs: query and domains on a small core, 10..14 nodes in the graphs (padding constant in the models)
+    for i in range(ctx.share({"quick": 400, "thorough": 5000}[ctx.tier])):
+        core = gg.random_admg(rng, rng.choice([2, 3, 3, 4]), p_bi=rng.choice([0.1, 0.2, 0.35]))
+        doms = random_domains(rng, core)
+        if i % 3 == 0:
+            sp = c08.split_event(rng, core)
+            if sp is None:
+                continue
+            out, cond, cls = sp
+        else:
+            out, cls = gev.random_event(rng, core)
+            cond = []
+            if not out or cls == "contradictory_pair":
+                continue
+        gd, pad = gg.embed_wide(core, rng, rng.randint(10, 14))
+        classes["wide:" + cls] = classes.get("wide:" + cls, 0) + 1
+        run_case(ctx, gd, doms, out, cond, rng, wrapper=(0, 1)[i % 2], cards={w: 1 for w in pad})
     ctx.extras["event_classes"] = classes
 
 
@@ -243,7 +261,7 @@ def replay(case):
     f = lambda ev: [[c[0], [list(w) for w in c[1]], c[2]] for c in ev]  # noqa: E731
     doms = [{"population": d["population"], "transport": d["transport"], "policy": d["policy"],
              **({"topo": d["topo"]} if d.get("topo") else {})} for d in case["domains"]]
-    run_case(_C(), gd, doms, f(case["outcomes"]), f(case.get("conditions") or []), random.Random(0))
+    run_case(_C(), gd, doms, f(case["outcomes"]), f(case.get("conditions") or []), random.Random(0), cards=case.get("cards"))
 
 
 def install_for_suite():
